@@ -107,9 +107,11 @@ NOT_APPLICABLE = {}
 
 HOOKS = {
     'guard': 'FXPMATH_VERIF_TRACE',
-    'enable': 'no source hook is needed by the checks registered so far: they drive the public API of /repo\'s working tree (sys.path[0]=/repo) and observe public attributes; FXPMATH_VERIF_TRACE=<file> is reserved for the tracing module fxpmath/_verif.py (recording the repository test-suite as a trace)',
+    'enable': 'the drivers need no hook: they import /repo\'s working tree (sys.path[0]=/repo) and observe public attributes. The hook is used to record the '
+              'repository\'s own test-suite as a trace: harness/suite.py runs pytest on /repo/tests with FXPMATH_VERIF_TRACE=<ndjson file>; fxpmath/__init__.py then '
+              'calls fxpmath/_verif.install(), which wraps Fxp.set_val and functions._function_over_two_vars and appends one observation row per top-level call',
     'baseline_off_cmd': 'cd /repo && /venv/bin/python -m pytest -ra -q -p no:cacheprovider --timeout=900 --continue-on-collection-errors',
-    'source_commits': [],
+    'source_commits': ['2c9bec1', 'b27a23e'],
     'add_only': True,
 }
 
